@@ -67,6 +67,16 @@ CHECKS = {
         "_inverse·_matrix == I; rotations and scalings are proved to fix the pivot (T(p)·K·T(-p)·p == p for K without translation part).",
    note=COMMON + "A-numpy, copy.deepcopy (fresh objects, equal contents, nothing shared), linalg.inv assumed. Names are opaque keys (two representative "
         "names). Stack = arbitrary prefix + visible top (the operations only touch the top). Lemma Mat4.mulVec_assoc is checked as a polynomial identity by z3."),
+ "C14": dict(category="proof",
+   text="GCodeCore.write is proved to make exactly one pass over the list registered at that moment, handing every writer the same bytes "
+        "utf8(rstrip(statement) ++ line ending) (loop contract: the loop body is the single writer.write call); add_writer/remove_writer are "
+        "proved against a sequence model with the duplicate-free invariant (order of the others preserved); teardown disconnects every "
+        "registered writer with the wait flag and empties the list; flush reaches every writer; FileWriter.write/flush/disconnect are proved "
+        "against an assumed file-object contract for path, text-stream and binary-stream outputs (append byte for byte, publish on "
+        "flush/close, caller's streams left open).",
+   note="A-writers (registered writers do not raise / do not touch the builder), A-str, file-object and Path.open('wb+') contracts assumed and exercised by a BOUNDED "
+        "stand-in on the real OS (random histories over real files/streams; not proof). List lemmas nodup_snoc/nodup_middle are proved in lemmas/ListLemmas.lean. "
+        "Known finding KF-C14-path-reconnect-truncates (reopening a path truncates) is carved out by its region."),
  "C17": dict(category="proof",
    text="Device._readline_buf and Device._readline_socket (loop contract for its `while True`): with bytes as sequences and the socket file as an "
         "assumed contract (read(n) returns None | b'' | 1..n bytes appended to the ghost stream), every call is proved to satisfy the conservation "
@@ -77,6 +87,14 @@ CHECKS = {
    note="A-str (bytes are z3 strings over code units), socket/selector contracts assumed, the chunk list is represented by (join of all chunks but the last, last chunk) "
         "which is all the code observes; first-occurrence facts of bytes.find are added as lemma instances (true of str.indexof). Termination/blocking is not claimed. "
         "Discharged by cvc5 --strings-exp where z3's sequence solver returns unknown."),
+ "C18": dict(category="proof",
+   text="_parse_message: loop contract over the token sequence, stated for one arbitrary letter κ: after the loop κ reads the value of its FIRST "
+        "occurrence in the report (single-letter fields, Grbl FS -> F,S, MPos/WPos/PRB -> X,Y,Z,A,B,C in order) and keeps its earlier reading if the "
+        "report does not mention it; _update_param first-occurrence rule; _on_device_message parses a report with or without a leading ok, and "
+        "does not parse error replies.",
+   note="Tokenisation by the regular expression (VALUE_PATTERN.findall) is an ASSUMED contract, backed only by a bounded differential against an independent "
+        "generator of Marlin/Grbl reports (3 000 quick / 100 000 thorough lines). float()/split()/isalnum()/strip()/lower() are uninterpreted functions; report "
+        "keys are upper-case (A-upper)."),
  "C20": dict(category="proof",
    text="Loop contract for the hook loop of _prepare_move with an arbitrary number >= 1 of arbitrary hooks: each hook call receives "
         "(resolve(position), true absolute target, params, state) in either distance mode (move and move_absolute); the parameters returned "
@@ -94,11 +112,11 @@ NOT_APPLICABLE = {
  "C11": "checks for this property are still being built in this round (will be claimed once its units discharge); not a statement about applicability",
  "C12": "checks for this property are still being built in this round (will be claimed once its units discharge); not a statement about applicability",
  
- "C14": "checks for this property are still being built in this round (will be claimed once its units discharge); not a statement about applicability",
+ 
  "C15": "checks for this property are still being built in this round (will be claimed once its units discharge); not a statement about applicability",
  "C16": "checks for this property are still being built in this round (will be claimed once its units discharge); not a statement about applicability",
  
- "C18": "checks for this property are still being built in this round (will be claimed once its units discharge); not a statement about applicability",
+ 
  "C19": "checks for this property are still being built in this round (will be claimed once its units discharge); not a statement about applicability",
  
  
